@@ -480,7 +480,10 @@ func (a *arrayObject) _deleteIdxProp(idx uint32, throw bool) bool {
 		if v := a.values[idx]; v != nil {
 			if p, ok := v.(*valueProperty); ok {
 				if !p.configurable {
-					a.val.runtime.typeErrorResult(throw, "Cannot delete property '%d' of %s", idx, a.val.toString())
+					if throw {
+						// the message is only built when it is needed: stringifying the object runs user code
+						a.val.runtime.typeErrorResult(true, "Cannot delete property '%d' of %s", idx, a.val.toString())
+					}
 					return false
 				}
 				a.propValueCount--
